@@ -216,6 +216,16 @@ func exec(db *clover.DB, op *cs.Op, out *cs.Outcome) {
 		}
 	case "createbyquery":
 		err = db.CreateCollectionByQuery(op.Coll, BuildQuery(op.Q))
+	case "storm":
+		// many cheap calls in a row (used after Close: every one must return promptly)
+		for i := 0; i < 160 && err == nil; i++ {
+			_, e1 := db.HasCollection(op.Coll)
+			_, e2 := db.FindAll(BuildQuery(&cs.Query{Coll: op.Coll}))
+			e3 := db.CreateCollection(op.Coll)
+			_ = e1
+			_ = e2
+			_ = e3
+		}
 	case "export":
 		err = db.ExportCollection(op.Coll, op.Path)
 	case "import":
